@@ -333,10 +333,13 @@ Qed.
 (* without the drain the scanner goroutine is left behind: 38 tokens, 3 read, queue of 16: blocked for ever
    after the 19th AddValue *)
 Theorem scanner_finishes_refuted_before_fix : exists src, forall fparse crank,
-  ~ scanner_finishes (length (lex src)) (consumed_before_fix fparse crank src) queue_size.
+  ~ scanner_finishes (length (lex src)) (consumed_before_fix fparse crank src) 16.
 Proof.
-  exists d18_source. intros fparse crank F. apply scanner_finishes_before_fix_iff in F.
-  destruct (d18_facts fparse crank) as (E1 & E2 & _). rewrite E1, E2 in F. vm_compute in F. lia.
+  (* 16 = the size of the token queue on the pinned tree; the statement names it instead of Params.parser_queue_size
+     so that a later change of that constant (harmless since the drain) does not touch this record of the old defect *)
+  exists d18_source. intros fparse crank F.
+  apply scanner_finishes_exactly_when in F; [|apply parse_consumed_le|lia].
+  destruct (d18_facts fparse crank) as (E1 & E2 & _). rewrite E1, E2 in F. lia.
 Qed.
 
 Print Assumptions consumption_model_agrees.
